@@ -1450,8 +1450,44 @@ fn pxi_cases(ctx: &mut Ctx, monitor: &str) {
     }
 }
 
+/// One pixel of a page larger than 4 GiB: the pixel, its neighbours, and single bytes at and around the place the byte
+/// offset (computed in 64 bits here) falls, and at that offset reduced modulo 2^32.
+fn pxz_cases(ctx: &mut Ctx, monitor: &str) {
+    let mut v = vec![(65_537u32, 524_288u32, 65_536u32, 0u32), (65_537, 524_288, 65_536, 524_287), (65_537, 524_288, 65_535, 524_287), (9, u32::MAX, 8, 0), (9, u32::MAX, 8, u32::MAX - 1)];
+    if ctx.tier_thorough {
+        v.extend_from_slice(&[(70_000, 600_000, 60_000, 77), (1_048_577, 32_776, 1_048_576, 32_775), (9, u32::MAX, 7, u32::MAX - 1), (65_537, 524_288, 65_537, 0), (131_073, 262_144, 131_072, 9), (17, u32::MAX, 16, 12_345)]);
+    }
+    for (w, h, x, y) in v {
+        let (w64, h64, x64, y64) = (w as u64, h as u64, x as u64, y as u64);
+        let total = total_bytes(w64, h64);
+        let idx = 4 + x64 * bpc(h64) + y64 / 8;
+        let wrapped = 4 + ((x64 * bpc(h64)) & 0xFFFF_FFFF) + y64 / 8;
+        let wrapped_all = (x64 * bpc(h64) + y64 / 8) & 0xFFFF_FFFF;
+        let mut probes: Vec<u64> = vec![idx, idx.saturating_sub(1), idx + 1, wrapped, 4 + wrapped_all, idx & 0xFFFF_FFFF, 0, 3, 4, total - 1, total, 4 + w64 * bpc(h64) - 1];
+        probes.dedup();
+        let line = format!("PXZ {} {} {} {} {}", w, h, x, y, probes.iter().map(|p| p.to_string()).collect::<Vec<_>>().join(","));
+        let res = ctx.case(line.clone(), true, "one-pixel-on-a-page-over-4GiB");
+        if res == "UNAVAILABLE" {
+            continue;
+        }
+        let want = if x < w && y < h {
+            format!(
+                "len={} view=0 get=1 nbr={}/{} bytes={}",
+                total,
+                if x + 1 < w { "0" } else { "-" },
+                if y > 0 { "0" } else { "-" },
+                probes.iter().map(|p| if *p >= total { format!("{}:-", p) } else if *p == idx { format!("{}:{}", p, 1u32 << (y64 % 8)) } else { format!("{}:0", p) }).collect::<Vec<_>>().join(",")
+            )
+        } else {
+            "PANIC".to_string()
+        };
+        ctx.monitor(res == want, monitor, &line, &format!("got [{}] want [{}]", res, want));
+    }
+}
+
 fn gen_c07_extreme(ctx: &mut Ctx) {
     pxi_cases(ctx, "C07-pixel-location");
+    pxz_cases(ctx, "C07-pixel-location");
     // one surplus chunk after a page whose pixels end exactly at a chunk boundary (so the page itself has no padding), and
     // other wrong lengths, with every byte after the header the same value (0xFF = what padding looks like)
     for (w, h) in [(12u32, 8u32), (28, 7), (6, 16), (60, 8), (1, 96), (90, 7), (13, 8)] {
@@ -1505,6 +1541,7 @@ fn gen_c07_extreme(ctx: &mut Ctx) {
 
 fn gen_c06(ctx: &mut Ctx) {
     pxi_cases(ctx, "C06-bitmap");
+    pxz_cases(ctx, "C06-bitmap");
     // the bounds check also holds in a destructor that runs while the thread is unwinding (child process: the second panic
     // aborts it)
     for (w, h, x, y) in [(8u32, 8u32, 8u32, 0u32), (8, 8, 0, 8), (8, 8, 7, 7), (2, 16, 0, 16), (2, 12, 0, 12), (2, 12, 1, 11), (3, 7, 3, 0), (3, 7, 0, 0)] {
